@@ -517,6 +517,30 @@ def skip_passthrough(F):
             skip_params = {pm["pat"].get("hid") for pm in fn["params"] if "FunctionID" in (pm.get("ty") or "")}
             if not skip_params:
                 continue
+            # … nor edits it in place on the way (a shadowing `let mut skip_funcs = skip_funcs;` followed by
+            # `get_mut(..).retain(..)` passes a changed configuration under the same name)
+            derived = set(skip_params)
+            for _round in range(3):
+                for x in walk(fn["body"]):
+                    pat = init = None
+                    if x.get("k") in ("Let", "LetExpr") and "init" in x:
+                        pat, init = x["pat"], x["init"]
+                    if pat is not None and any(y.get("k") == "Path" and y.get("res", {}).get("hid") in derived for y in walk(init)) \
+                            and "FunctionID" in ((init.get("ty") or "") + " ".join((b.get("ty") or "") for b in walk(pat) if b.get("k") == "Binding")) \
+                            and not any(y.get("k") == "Call" and (y.get("callee") or "").endswith("SubIterator::new") for y in walk(init)):
+                        for b in walk(pat):
+                            if b.get("k") == "Binding":
+                                derived.add(b["hid"])
+            EDIT = ("retain", "remove", "clear", "truncate", "pop", "drain", "dedup", "sort", "sort_unstable", "insert", "push", "extend", "append", "swap_remove", "retain_mut", "remove_entry", "split_off", "dedup_by_key", "reverse")
+            for x in walk(fn["body"]):
+                if x.get("k") == "MethodCall" and x["method"] in EDIT:
+                    root = peel(x["recv"])
+                    while isinstance(root, dict) and root.get("k") in ("Field", "Index", "Deref", "Unary", "MethodCall", "AddrOf", "Ref"):
+                        root = peel(root.get("base") or root.get("recv") or root.get("a") or root.get("e") or {})
+                    if isinstance(root, dict) and root.get("k") == "Path" and root.get("res", {}).get("hid") in derived:
+                        r.ob(False, {"ctor": fn["path"], "edits the skip configuration": x["method"]})
+                        r.violate("%s | skip config edited in place (%s)" % (fn["path"], x["method"]), F.loc(fn, x),
+                                  "%s::new edits the caller's skip configuration with `%s` before handing it to the sub-iterator: entries the caller listed can be dropped, so functions it asked to skip are visited" % (adt, x["method"]))
             for c in walk(fn["body"]):
                 if c.get("k") == "Call" and (c.get("callee") or "").endswith("SubIterator::new"):
                     for a in c["args"]:
